@@ -55,13 +55,21 @@ pub struct Sched {
     pub first_cfg_off: Option<usize>,
     /// storm mode: the configurations are cycled through for ever (index `applied mod n`)
     pub cyclic: bool,
+    /// whether a runaway read may be ended by a panic from inside the device (not when the device is
+    /// reached through the MMIO bus: its callbacks cannot unwind; the bus has its own access budget)
+    pub may_panic: bool,
 }
 
 impl Sched {
     pub fn single(cfg: Vec<u8>, len: usize) -> Self {
-        Sched { tick: 0, at: vec![], cfgs: vec![cfg], cur: 0, applied: 0, gen0: 0, m: 1 << 32, len, first_cfg_off: None, cyclic: false }
+        Sched { tick: 0, at: vec![], cfgs: vec![cfg], cur: 0, applied: 0, gen0: 0, m: 1 << 32, len, first_cfg_off: None, cyclic: false, may_panic: false }
     }
     pub fn before_read(&mut self) {
+        if self.tick > 200_000 && self.may_panic {
+            // a multi-field read that is still retrying long after the device stopped changing its
+            // configuration will never finish
+            panic!("harness: configuration read does not terminate (still re-reading after 200000 accesses, the last configuration change was at access {})", self.at.iter().max().copied().unwrap_or(0));
+        }
         let n = self.at.iter().filter(|p| **p <= self.tick).count();
         self.applied = n;
         self.cur = if self.cyclic { n % self.cfgs.len() } else { n.min(self.cfgs.len() - 1) };
@@ -444,6 +452,11 @@ fn access_step<X: Transport>(c: &mut Case, t: &mut X, st: &Rc<RefCell<VState>>, 
     // ---- oracle, from the property text ----
     if !foreign.is_empty() {
         c.fail(format!("{}: config access touched something else: {}", op, foreign.join(" ")));
+    }
+    if op.contains("kind=mmio") && align > 4 && !acc.is_empty() {
+        // virtio-mmio guarantees 4-byte alignment of the configuration space and 32-bit accesses; a type that
+        // needs 8-byte alignment (a 64-bit field read in one piece) is refused, not performed as a 64-bit access
+        c.fail(format!("{}: a type of alignment {} was accessed in the configuration space of an MMIO device ({}): 64-bit fields are two 32-bit accesses", op, align, acc_str));
     }
     let inside = present && off.checked_add(size).map(|e| e <= win_len).unwrap_or(false);
     match &r {
@@ -881,7 +894,7 @@ fn run_one_c(d: Drv, tk: Tk, len: usize, at: &[usize], gen0: u64, cyclic: bool) 
     hal::reset();
     mmio::reset();
     mmio::with(|b| b.budget = 200_000);
-    let sched = Sched { tick: 0, at: at.to_vec(), cfgs: d.configs(len), cur: 0, applied: 0, gen0, m: tk.modulus(), len, first_cfg_off: None, cyclic };
+    let sched = Sched { tick: 0, at: at.to_vec(), cfgs: d.configs(len), cur: 0, applied: 0, gen0, m: tk.modulus(), len, first_cfg_off: None, cyclic, may_panic: tk == Tk::Model };
     match tk {
         Tk::Model => {
             let sched = Rc::new(RefCell::new(sched));
